@@ -53,9 +53,13 @@ func scenC12(r *Run, job *Job) {
 	// snapshot mode with an operator: the sandbox is initialised eagerly, the runtime of the first generation parks
 	// in restore/next, a restore request releases it, and its script continues in the Restoring state
 	restore := snap && t.Chance(1, 2)
+	if restore && t.Chance(1, 3) {
+		// the restore is descheduled at one of its own steps while the runtime it has (or has not yet) released runs on
+		r.AddHold([]string{"SetRenderer<lambda/rapid.handleRestore", "UpdateCredentials<lambda/rapid.handleRestore", "lambda/rapid.handleRestore"}[t.Draw(3)], 1+t.Draw(3), 1+t.Draw(3))
+	}
 	w := r.NewWorld(WorldCfg{TimeoutSec: timeoutSec, InitCaching: snap}, job.Seed)
 	e := w.NewEngine()
-	e.Bound = time.Duration(nInv*(timeoutSec+8)+20) * time.Second
+	e.Bound = time.Duration(nInv*(timeoutSec+8+70)+20) * time.Second
 	e.PermNum, e.PermDen = 1, 3 // callers and runtime steps interleave in tape order
 	scripts := map[int][]Op{}
 	e.BehavFor = func(p *Proc) *Behav {
@@ -73,7 +77,7 @@ func scenC12(r *Run, job *Job) {
 		return b
 	}
 	for i := 0; i < nInv; i++ {
-		e.Plan = append(e.Plan, InvSpec{Payload: Tagged(fmt.Sprintf("ev%d", i+1), 16), Delay: []time.Duration{0, 0, 50 * time.Millisecond}[t.Draw(3)]})
+		e.Plan = append(e.Plan, InvSpec{Payload: Tagged(fmt.Sprintf("ev%d", i+1), 16), Delay: []time.Duration{0, 0, 50 * time.Millisecond, 0, 0, 50 * time.Millisecond, 70 * time.Second}[t.Draw(7)]})
 	}
 	if restore {
 		r.NextStep()
@@ -115,13 +119,13 @@ func scenC12(r *Run, job *Job) {
 	e.Run()
 	for _, a := range e.Actors() {
 		if a.IsRT {
-			c12Judge(r, w, a, snap)
+			c12Judge(r, w, a, snap, restore && w.GenOrdinal(a.P.Gen) == 1)
 		}
 	}
 }
 
 // c12Judge replays the calls of one runtime against the reference automaton.
-func c12Judge(r *Run, w *World, a *Actor, snap bool) {
+func c12Judge(r *Run, w *World, a *Actor, snap, operatorRestore bool) {
 	const (
 		fresh = iota
 		initFailed
@@ -148,6 +152,9 @@ func c12Judge(r *Run, w *World, a *Actor, snap bool) {
 	for _, c := range a.Calls {
 		if state == unspecified {
 			return
+		}
+		if c.Done && c.Err != nil && (a.P.Alive || a.P.DeathStep > c.EndStep) {
+			r.Failf("C12.connection-dropped", "%s: %s %s ended with a dropped connection (%v) although the process was alive (state %s)", who, c.Method, c.Path, errClass(c.Err), names[state])
 		}
 		if !c.Done || c.Err != nil {
 			// parked for ever or cut by the death of the process
@@ -214,12 +221,19 @@ func c12Judge(r *Run, w *World, a *Actor, snap bool) {
 			}
 			if state == fresh {
 				// parked until a restore (or, in the emulator, the first invocation) releases it
-				if c.Status == 200 {
-					r.Probe("entered-restoring")
-					state = restoring
-				} else {
-					state = unspecified
+				if !operatorRestore {
+					// released by the first invocation (the emulator has no restore of its own): what it returns then is not
+					// specified by the automaton
+					if c.Status == 200 {
+						state = restoring
+					} else {
+						state = unspecified
+					}
+					break
 				}
+				r.Check(c.Status == 200 && len(c.Body) == 0, "C12.restore-next-answer", "%s: restore/next, parked in state Fresh and released by the restore request, was answered %d %s", who, c.Status, summarize(c.Body))
+				r.Probe("entered-restoring")
+				state = restoring
 				break
 			}
 			r.Check(c.Status == 403, "C12.restore-next-late", "%s: restore/next in state %s answered %d %s, expected 403", who, names[state], c.Status, summarize(c.Body))
